@@ -454,8 +454,11 @@ func genBFS(r *rec.Rand) bfsCase {
 	if r.Chance(1, 3) {
 		c.Start = r.Intn(c.N)
 	}
-	c.Depth = r.Range(1, 8)
-	if r.Chance(1, 6) {
+	c.Depth = r.Range(1, 5)
+	if r.Chance(1, 3) {
+		c.Depth = r.Range(2, c.N+2)
+	}
+	if r.Chance(1, 8) {
 		c.Depth = 25
 	}
 	return c
@@ -701,4 +704,94 @@ func runLO(ctx context.Context, w *rec.Writer, r *rec.Rand, g *rig, s *scen.Scen
 	}
 	w.Case(map[string]any{"kind": 5, "scenario": s, "subjects": subjects, "text": s.String()},
 		rec.I(5), model, conds, rec.L(tvs...), atoms, rec.I(maxDepth), rec.L(svs...))
+}
+
+// ---------------------------------------------------------------------------------------------
+// kind 6: the producer of the user side of the fast paths: storage.OrderedCombinedIterator keyed
+// by object (what CombinedTupleReader.ReadStartingWithUser builds for sorted reads) followed by
+// ConditionsFilteredTupleKeyIterator and the object-id mapper
+
+type srcCase struct {
+	Kind   int      `json:"kind"`
+	Ctxt   [][2]int `json:"ctxt"`   // (object, condition outcome 0 met / 1 not met / 2 error), sorted by object
+	Stored [][2]int `json:"stored"` // idem
+}
+
+func genSrcList(r *rec.Rand, universe int) [][2]int {
+	n := r.Intn(7)
+	var out [][2]int
+	for i := 0; i < n; i++ {
+		c := 0
+		switch r.Intn(6) {
+		case 0, 1:
+			c = 1
+		case 2:
+			if r.Chance(1, 2) {
+				c = 2
+			}
+		}
+		out = append(out, [2]int{r.Intn(universe), c})
+	}
+	sort.SliceStable(out, func(i, j int) bool { return out[i][0] < out[j][0] })
+	return out
+}
+
+func genSrc(r *rec.Rand) srcCase {
+	u := r.Range(2, 6)
+	c := srcCase{Kind: 6, Stored: genSrcList(r, u)}
+	if r.Chance(1, 2) {
+		c.Ctxt = genSrcList(r, u)
+	}
+	return c
+}
+
+func runSrc(w *rec.Writer, c srcCase) {
+	ctx := context.Background()
+	mk := func(l [][2]int, tag string) []*openfgav1.Tuple {
+		var ts []*openfgav1.Tuple
+		for i, t := range l {
+			ts = append(ts, &openfgav1.Tuple{Key: &openfgav1.TupleKey{
+				Object: objName(t[0]), Relation: "r", User: fmt.Sprintf("user:%s%d", tag, i),
+				Condition: &openfgav1.RelationshipCondition{Name: fmt.Sprintf("c%d", t[1])}}})
+		}
+		return ts
+	}
+	it := storage.NewOrderedCombinedIterator(storage.ObjectMapper(),
+		storage.NewStaticTupleIterator(mk(c.Ctxt, "c")), storage.NewStaticTupleIterator(mk(c.Stored, "s")))
+	filtered := storage.NewConditionsFilteredTupleKeyIterator(storage.NewTupleKeyIteratorFromTupleIterator(it),
+		func(t *openfgav1.TupleKey) (bool, error) {
+			switch t.GetCondition().GetName() {
+			case "c0":
+				return true, nil
+			case "c1":
+				return false, nil
+			}
+			return false, errInjected
+		})
+	m := storage.WrapIterator(storage.ObjectIDKind, filtered)
+	defer m.Stop()
+	var objs []int
+	failed := 0
+	for {
+		x, err := m.Next(ctx)
+		if err != nil {
+			if !errors.Is(err, storage.ErrIteratorDone) {
+				failed = 1
+			}
+			break
+		}
+		objs = append(objs, objNum(x))
+	}
+	pair := func(l [][2]int) rec.V {
+		var vs []rec.V
+		for _, t := range l {
+			vs = append(vs, rec.L(rec.I(t[0]), rec.I(t[1])))
+		}
+		return rec.L(vs...)
+	}
+	w.Stat("src_cases", 1)
+	if failed == 1 {
+		w.Stat("src_failed", 1)
+	}
+	w.Case(c, rec.I(6), pair(c.Ctxt), pair(c.Stored), rec.LI(objs), rec.I(failed))
 }
